@@ -79,7 +79,14 @@ def execute(c):
     d = c["sp"][0] / c["sp"][1] * pl[0]
     adj = bool(c["adjust"])
     o = {}
-    o["iso"] = tree_result(lambda: lib.outlives(lib.reused(IsometricResampler(d, adjust_last_gap=adj), c, t), t, c), pl)
+    if "full" in c:
+        # the case's table is the branch tree of the (bent) tree c["full"]: it is the BranchTree object itself that is resampled - along its own
+        # straight edges, not along the branches it remembers
+        from swcgeom.transforms import ToBranchTree
+        bt = ToBranchTree()(mk_tree(dict(c["full"], rtype=c["rtype"]), pl))
+        o["iso"] = tree_result(lambda: IsometricResampler(d, adjust_last_gap=adj)(bt), pl)
+    else:
+        o["iso"] = tree_result(lambda: lib.outlives(lib.reused(IsometricResampler(d, adjust_last_gap=adj), c, t), t, c), pl)
     o["same"] = tree_result(lambda: BranchTreeAssembler()(BranchTree.from_tree(t)), pl)
     brs = t.get_branches()
     b1 = min(brs, key=lambda b: int(b.origin_id()[-1]))
@@ -128,12 +135,45 @@ def extra_cases(ctx, count):
     return out
 
 
+def branch_tree_cases(ctx, count):
+    """trees whose branches bend by 3-4-5 steps; the case handed to the judge is the table of their branch tree (root, furcations, tips joined by
+    straight edges of integer length), read from the library's own ToBranchTree (whose correctness is C08's subject)"""
+    from swcgeom.transforms import ToBranchTree
+    rng = ctx.rng
+    out = []
+    BENDS = [[(3, 0, 0), (0, 4, 0)], [(0, 4, 0), (3, 0, 0)], [(0, 0, 4), (0, 3, 0)], [(4, 0, 0), (0, 0, 3)], [(0, 3, 0), (4, 0, 0)], [(5, 0, 0)], [(0, 0, -5)]]
+    for k in range(count):
+        P, pos, rad = [-1], [[0, 0, 0]], [2]
+
+        def grow(start, steps, sign):
+            cur = start
+            for st in steps:
+                P.append(cur); pos.append([pos[cur][j] + sign * st[j] for j in range(3)]); rad.append(1 + (len(P) % 3)); cur = len(P) - 1
+            return cur
+        fork = grow(0, BENDS[k % len(BENDS)], 1)                     # the stem: a 3-4-5 bend (or a straight run of 5), chord length 5
+        if k % 3:                                                    # two branches behind it, each bent (chords of length 5 again)
+            grow(fork, BENDS[(k + 1) % 5], 1)
+            grow(fork, BENDS[(k + 2) % 5], -1)
+        full = {"kind": "tree", "P": P, "pos": pos, "rad": rad}
+        bt = ToBranchTree()(mk_tree(dict(full, rtype=1)))
+        btpos = [[int(round(float(v))) for v in row] for row in zip(bt.x(), bt.y(), bt.z())]
+        if len(set(map(tuple, btpos))) != len(btpos):
+            continue
+        sp = rng.choice([[1, 1], [1, 2], [3, 2], [2, 1], [5, 2]])
+        out.append({"kind": "tree", "P": [int(v) for v in bt.pid()], "pos": btpos, "rad": [int(round(float(v))) for v in bt.r()], "sp": sp,
+                    "adjust": k % 3 != 0, "rtype": 1, "win": 3, "n": 3, "full": full, "vid": 3 * k})          # (vid = 3k: exact placement)
+    return out
+
+
 def run(ctx):
     cases, path = ctx.gen("Gen_Resample", "Gen_Resample.%s.cfg" % ctx.tier)
     ctx.run_cases("enumerated", cases, path, execute, "Judge_Resample", keyfn, nontrivial)
     ec = extra_cases(ctx, 150 if ctx.tier == "quick" else 3000)
     p = ctx.write_cases("chains", ec)
     ctx.run_cases("chains", ec, p, execute, "Judge_Resample", keyfn, lambda c: len(c["P"]) >= 3)
+    bc = branch_tree_cases(ctx, 40 if ctx.tier == "quick" else 600)
+    p = ctx.write_cases("branch-tree-input", bc)
+    ctx.run_cases("branch-tree-input", bc, p, execute, "Judge_Resample", keyfn, lambda c: len(c["P"]) >= 3)
     ctx.assumptions += ["segments are axis-parallel with integer lengths so that every resampled point is an exact rational point; spacings are dyadic or small rationals",
                         "no two of root / furcations / tips coincide (connectivity between them is read off positions); radii are equal across zero-length segments",
                         "for smoothing only what the statement fixes is judged (count, connectivity, radii, end points / critical nodes), not the smoothed interior",
